@@ -186,6 +186,15 @@ where
             .ok_or(PlanningError::PlannerUninitialised)?;
         let goal = &pd.goal;
 
+        // A start state the checker rejects is reported, never planned from.
+        let vc = self
+            .validity_checker
+            .as_ref()
+            .ok_or(PlanningError::PlannerUninitialised)?;
+        if !vc.is_valid(&pd.start_states[0]) {
+            return Err(PlanningError::InvalidStartState);
+        }
+
         let mut rng = self
             .rng
             .take()
